@@ -7,6 +7,7 @@
 // pkg/signer/file/verif_export_c19.go) to obtain its abstract description, on which the Coq model
 // (Model/KeyFile.v, symbolic crypto of Check/KeyFileCheck.v) is evaluated.  Writes cases_C19.v and
 // result.json (Go oracle = the property evaluated directly on what the implementation did).
+// Multi-step histories over one path and signing sessions on the loaded signers: c19_history_test.go.
 package c19
 
 import (
@@ -45,16 +46,17 @@ type Mut struct {
 }
 
 type History struct {
-	Seed     int64  `json:"seed"`
-	Case     int    `json:"case"`
-	BaseKind string `json:"base_kind"` // create | import | import96 | legacy
-	SavePass []byte `json:"save_pass"` // passphrase the base file was saved under
-	BaseFile []byte `json:"base_file"` // the file text produced by the real code (replayed verbatim); empty = make a new one
-	Mut      Mut    `json:"mut"`
-	Op       string `json:"op"`   // load | export | export-import (import into Target, then load) | create-load
-	Pass     []byte `json:"pass"` // passphrase given to the operation
-	Pass2    []byte `json:"pass2,omitempty"`
-	Target   Target `json:"target,omitempty"` // export-import: what is at the import path before ImportPrivateKey runs
+	Seed     int64   `json:"seed"`
+	Case     int     `json:"case"`
+	BaseKind string  `json:"base_kind"` // create | import | import96 | legacy
+	SavePass []byte  `json:"save_pass"` // passphrase the base file was saved under
+	BaseFile []byte  `json:"base_file"` // the file text produced by the real code (replayed verbatim); empty = make a new one
+	Mut      Mut     `json:"mut"`
+	Op       string  `json:"op"`   // load | export | export-import (import into Target, then load) | create-load | history (Steps, see c19_history_test.go)
+	Pass     []byte  `json:"pass"` // passphrase given to the operation
+	Pass2    []byte  `json:"pass2,omitempty"`
+	Target   Target  `json:"target,omitempty"` // export-import: what is at the import path before ImportPrivateKey runs
+	Steps    []HStep `json:"steps,omitempty"`  // history: the operations applied one after the other to ONE path (BaseKind "absent": the path is free)
 }
 
 // Target describes the directory ImportPrivateKey writes into.  Kind "" / "fresh" = an empty directory.
@@ -344,6 +346,8 @@ type outcome struct {
 func errClass(err error) string {
 	s := err.Error()
 	switch {
+	case strings.Contains(s, "already exists"):
+		return "EExists"
 	case strings.Contains(s, "key file not found"), strings.Contains(s, "failed to read key file"), strings.Contains(s, "failed to check key file status"):
 		return "EIo"
 	case strings.Contains(s, "unmarshal key data"):
@@ -464,17 +468,22 @@ func facts(s signer.Signer, msg []byte, cands [][]byte) (f signerFacts) {
 // ---- one case ---------------------------------------------------------------------------------
 
 type caseResult struct {
-	err      error
-	hist     History // with BaseFile filled in
-	base     *baseInfo
-	viol     []string
-	what     []string
-	coq      []string // Coq case terms (use names of module B<base> and literals)
-	outClass string
-	region   string
-	passRel  string
-	reached  bool // the file parsed, so the operation got to key derivation
+	err       error
+	hist      History // with BaseFile filled in
+	base      *baseInfo
+	viol      []string
+	what      []string
+	coq       []string // Coq case terms (use names of module B<base> and literals)
+	outClass  string
+	region    string
+	passRel   string
+	reached   bool     // the file parsed, so the operation got to key derivation
+	defs      []string // history: Coq module with the byte strings of the history (module name = placeholder histMod)
+	histKinds []string // history: step kinds
 }
+
+// histMod: placeholder for the Coq module name of a history; replaced by H<job index> when the cases file is assembled
+const histMod = "@H@"
 
 func (c *caseResult) fail(sig, what string) {
 	for _, s := range c.viol {
@@ -514,6 +523,26 @@ func runCase(h History, r *rand.Rand) (res *caseResult) {
 
 	if h.Op == "create-load" {
 		return runCreateLoad(h, res, msg)
+	}
+	if h.Op == "history" {
+		if h.BaseKind != "absent" {
+			if len(h.BaseFile) == 0 {
+				t, err := makeBase(h.BaseKind, h.SavePass, r)
+				if err != nil {
+					res.err = err
+					return
+				}
+				h.BaseFile = t
+				res.hist = h
+			}
+			b, err := analyse(h.BaseKind, h.SavePass, h.BaseFile)
+			if err != nil {
+				res.err = err
+				return
+			}
+			res.base = b
+		}
+		return runHistory(h, res, r, msg)
 	}
 	if len(h.BaseFile) == 0 {
 		t, err := makeBase(h.BaseKind, h.SavePass, r)
@@ -1161,6 +1190,9 @@ func hasSig(res *caseResult, sig string) bool {
 // shrink simplifies a failing history (shorter passphrases on a re-made base, simpler operation,
 // canonical replacement byte) as long as the same signature keeps failing on the real code.
 func shrink(h History, sig string) History {
+	if h.Op == "history" {
+		return shrinkHistory(h, sig)
+	}
 	cur := h
 	try := func(c History) bool {
 		r := runCase(c, caseRng(c.Seed, c.Case))
@@ -1292,6 +1324,38 @@ func TestVerif(t *testing.T) {
 			}
 			jobs = append(jobs, job{h: h})
 		}
+		// histories over ONE path (load -> load -> export -> import -> load ...) and signing sessions on the loaded signers
+		{
+			var leg, cur, imp []*baseInfo
+			for _, b := range bases {
+				switch {
+				case len(b.salt) == 0:
+					leg = append(leg, b)
+				case b.kind == "create":
+					cur = append(cur, b)
+				default:
+					imp = append(imp, b)
+				}
+			}
+			nHist := e.N / 10
+			if nHist < 8 {
+				nHist = 8
+			}
+			for k := 0; k < nHist; k++ {
+				c := e.N + 1000 + k
+				r := caseRng(e.Seed, c)
+				var b *baseInfo
+				switch x := r.Intn(100); {
+				case x < 36:
+					b = leg[r.Intn(len(leg))]
+				case x < 70:
+					b = cur[r.Intn(len(cur))]
+				case x < 90:
+					b = imp[r.Intn(len(imp))]
+				}
+				jobs = append(jobs, job{h: genHist(r, e.Seed, c, b)})
+			}
+		}
 		// systematic: export from a current-format and from a legacy file, then import OVER every kind of
 		// pre-existing content at the target path (incl. the source path itself), then load
 		if os.Getenv("VERIF_NO_CORPUS") == "" {
@@ -1314,7 +1378,7 @@ func TestVerif(t *testing.T) {
 	extra := 0
 	for i := range jobs {
 		h := jobs[i].h
-		if h.Op == "create-load" {
+		if h.Op == "create-load" || (h.Op == "history" && h.BaseKind == "absent") {
 			continue
 		}
 		if len(h.BaseFile) == 0 {
@@ -1366,6 +1430,7 @@ func TestVerif(t *testing.T) {
 		defs = append(defs, baseDefs(b))
 	}
 	distinct := map[string]bool{}
+	shrunkSig := map[string]bool{}
 	for ji, cr := range results {
 		if cr == nil {
 			res.Evaluations++
@@ -1391,26 +1456,45 @@ func TestVerif(t *testing.T) {
 		res.Count("passphrase:" + cr.passRel)
 		res.Count(fmt.Sprintf("save-pass-len:%d", lenClass(len(h.SavePass))))
 		res.Count("outcome:" + cr.outClass)
-		key := fmt.Sprintf("%s|%s|%s|%s|%s|%d|%d|%s", h.BaseKind, h.Mut.Kind, cr.region, cr.passRel, h.Op, lenClass(len(h.SavePass)), lenClass(len(h.Pass)), cr.outClass)
+		hmod := fmt.Sprintf("H%d", ji)
+		hkey := ""
+		for _, k := range cr.histKinds {
+			res.Count("history-step:" + k)
+			hkey += k + ","
+		}
+		for _, st := range h.Steps {
+			for _, so := range st.Sign {
+				res.Count("sign-call:" + so.Kind)
+			}
+		}
+		for _, d := range cr.defs {
+			defs = append(defs, strings.ReplaceAll(d, histMod, hmod))
+		}
+		key := fmt.Sprintf("%s|%s|%s|%s|%s|%d|%d|%s|%s", h.BaseKind, h.Mut.Kind, cr.region, cr.passRel, h.Op, lenClass(len(h.SavePass)), lenClass(len(h.Pass)), cr.outClass, hkey)
 		if cr.reached && !(h.Mut.Kind == "none" && cr.passRel == "same") {
 			distinct[key] = true
 		}
 		for vi, sig := range cr.viol {
-			sh := shrink(h, sig)
+			sh := h
+			// a history is shrunk for the first failure of each signature only (every attempt re-runs the key derivations)
+			if h.Op != "history" || !shrunkSig[sig] {
+				sh = shrink(h, sig)
+				shrunkSig[sig] = true
+			}
 			res.Violations = append(res.Violations, vgen.Violation{Signature: sig, What: cr.what[vi], Case: ji, Replay: sh})
 		}
 		for _, c := range cr.coq {
 			res.Replays[fmt.Sprint(len(cases))] = h
-			cases = append(cases, "("+c+")")
+			cases = append(cases, "("+strings.ReplaceAll(c, histMod, hmod)+")")
 		}
 		if len(res.Samples) < 3 && cr.reached && h.Mut.Kind != "none" && len(cr.coq) > 0 {
 			hs := h
 			hs.BaseFile = nil
-			res.Samples = append(res.Samples, map[string]interface{}{"history": hs, "mutation": mutString(h.Mut), "outcome": cr.outClass, "coq_case": cr.coq[0]})
+			res.Samples = append(res.Samples, map[string]interface{}{"history": hs, "mutation": mutString(h.Mut), "outcome": cr.outClass, "coq_case": strings.ReplaceAll(cr.coq[0], histMod, hmod)})
 		}
 	}
 	res.Distinct = len(distinct)
-	res.Rule = "one history = a key file made by the real code (Create / Import of a 64- or 96-byte key / hand-built legacy salt-less file) under a passphrase of 0,1,31,32,33,4096 or a random number of bytes; a corruption (single-byte substitution by '=', another base64 character or an arbitrary byte; truncation; a decoded field replaced, shortened, extended, bit-flipped, emptied, nulled or swapped with another key's; arbitrary text; missing file); a passphrase (the right one, empty, prefix, extension, one bit flipped, same first 32 bytes, unrelated); an operation (load, export, create+load, export+import+load where the import path is empty or already holds a current-format file saved under the same / another passphrase, a legacy salt-less file, a file with the salt removed, a corrupted, truncated or empty file, {} / null, unrelated files, or is the source path itself). thorough tier: additionally every position x 3 replacement classes and every truncation of one base per shard. non-trivial = the file still parses (the operation reaches key derivation) and it is not the plain right-passphrase round trip; distinct = distinct (base kind, mutation kind, region of the file hit, passphrase relation, operation, passphrase length classes, outcome class)"
+	res.Rule = "one history = a key file made by the real code (Create / Import of a 64- or 96-byte key / hand-built legacy salt-less file) under a passphrase of 0,1,31,32,33,4096 or a random number of bytes; a corruption (single-byte substitution by '=', another base64 character or an arbitrary byte; truncation; a decoded field replaced, shortened, extended, bit-flipped, emptied, nulled or swapped with another key's; arbitrary text; missing file); a passphrase (the right one, empty, prefix, extension, one bit flipped, same first 32 bytes, unrelated); an operation (load, export, create+load, export+import+load where the import path is empty or already holds a current-format file saved under the same / another passphrase, a legacy salt-less file, a file with the salt removed, a corrupted, truncated or empty file, {} / null, unrelated files, or is the source path itself); N/10 further histories over ONE path: a file made by Create / Import / in the legacy salt-less format (or a free path and a Create), then 3-10 steps out of load, export, export + import of what came out under a new passphrase over the same path, import of a new key, import of bytes that are no key, create on the occupied path, each with the right passphrase or an all-zero one of the same length, the empty one, 33 / 4096 bytes, a prefix, one bit flipped, the passphrase in force before the last re-seal, an extension, an unrelated one; after every step the file is read back and compared with the model's, and when its text changed a copy is probed with the real code (opens with exactly the passphrase it was last sealed with); signing sessions of 3-8 Sign calls on the loaded signers (fresh slices, one buffer re-used, rewritten in place incl. truncated copies, a prefix of it, the same bytes again), every signature checked under GetPublic for the bytes at the time of the call. thorough tier: additionally every position x 3 replacement classes and every truncation of one base per shard. non-trivial = the file still parses (the operation reaches key derivation) and it is not the plain right-passphrase round trip; distinct = distinct (base kind, mutation kind, region of the file hit, passphrase relation, operation, passphrase length classes, outcome class)"
 	res.Cases = len(cases)
 	header := "From Coq Require Import String NArith List Bool.\nFrom Verif Require Import Model.KeyFile Check.KeyFileCheck."
 	path := filepath.Join(e.Out, "cases_C19.v")
